@@ -20,7 +20,7 @@ def make_run(cfg, answer, **kw):
     lo, up = bounds_of(cfg)
     return SolverRun(N=cfg["N"], lower=lo, upper=up, r=cfg.get("r", 2.0), eps=cfg.get("eps", 1e-30),
                      itersLimit=cfg.get("itersLimit", 10 ** 6), answer=answer, density=cfg.get("density"),
-                     refine=cfg.get("refine", False), fresh_holder=cfg.get("holder") == "fresh",
+                     refine=cfg.get("refine", False), fresh_holder=(True if cfg.get("holder") == "fresh" else ("zerod" if cfg.get("holder") == "zerod" else False)),
                      other=tuple(cfg["other"]) if cfg.get("other") else None, int_bounds=cfg.get("box") == "Z",
                      constraints=int(cfg.get("constraints", 0)), discrete=int(cfg.get("discrete", 0)), probe=bool(cfg.get("probe")),
                      start_point=bool(cfg.get("startPoint")), spell=cfg.get("spell"), **kw)
@@ -41,7 +41,36 @@ def _listeners(visitor, cfg):
         # a shipped console listener rides along (its output is swallowed by the harness)
         from iOpt.method.listener import ConsoleFullOutputListener
         ls.append(ConsoleFullOutputListener(mode=cfg["console"], iters=3))
+    if cfg.get("peek"):
+        ls.append(Peeker())
     return ls
+
+
+class Peeker:
+    """a read-only listener that looks at the search information the way a progress display would: it starts walking it
+    and stops early, and asks which interval covers a coordinate it was just told about"""
+
+    def BeforeMethodStart(self, method=None, *a):
+        self.sd = getattr(method, "searchData", None)
+
+    def OnEndIteration(self, newPoints=None, solution=None, *a):
+        sd = getattr(self, "sd", None)
+        if sd is None:
+            return
+        for k, item in enumerate(sd):
+            if k >= 1:
+                break
+        for p in (newPoints or [])[:1]:
+            sd.FindDataItemByOneDimensionalPoint(p.GetX())
+
+    def OnMethodStop(self, searchData=None, solution=None, *a):
+        if searchData is not None:
+            for k, item in enumerate(searchData):
+                if k >= 2:
+                    break
+
+    def OnRefrash(self, *a):
+        pass
 
 
 def _first_new_depth(prefix):
